@@ -24,6 +24,11 @@ def fmt6_independent(v):
     return str(Decimal(v).quantize(Decimal('0.000001'), rounding=ROUND_HALF_EVEN))
 
 
+def value_text(v):
+    """a float is written with six decimals, anything else (an int of the Multivariate adapter) as it is"""
+    return fmt6_independent(v) if isinstance(v, float) else '%s' % (v,)
+
+
 def effective(cfg, suite, bench, key, default):
     val = cfg.get('runs', {}).get(key, default)
     su = cfg['benchmark_suites'][suite]
@@ -45,6 +50,11 @@ def gen_scenario(rng, quick, opts=None):
                       'stop': None})
     if rng.random() < 0.25:
         specs[0]['stop'] = rng.randint(1, 6)
+    for sp in specs[1:]:          # a later session started with -c: discard what the earlier ones recorded
+        if rng.random() < 0.2:
+            sp['clean'] = True
+    if rng.random() < 0.05:
+        specs[0]['clean'] = True
     return {'cfg': cfg, 'specs': specs, 'seed': rng.randint(0, 10 ** 9), 'argv': ['-f'] if rng.random() < 0.15 else []}
 
 
@@ -66,7 +76,9 @@ def run_scenario(ck, scen, tag):
         build_ok = [rng.random() < 0.85 for _ in probe.builds]
     if scen.get('hostile') and not scen.get('hostile_applied'):
         # criteria that RebenchLog's [^:]{1,30} admits and that contain a TSV separator
-        for per in outputs:
+        for ri, per in enumerate(outputs):
+            if probe.runs[ri].get('adapter') != 'RebenchLog':
+                continue      # only RebenchLog's criterion pattern admits such characters
             for o in per:
                 if o is None:
                     continue
@@ -93,9 +105,12 @@ def run_scenario(ck, scen, tag):
     prev = [''] * len(probe.files)
     for spec in scen['specs']:
         script = dp.make_script(probe, outputs, build_ok, stop=spec.get('stop'), raw=raw)
-        ob = dp.run_real_session(wd, probe, ['-s', spec['sched']] + list(scen.get('argv', [])), script,
+        ob = dp.run_real_session(wd, probe, ['-s', spec['sched']] + (['-c'] if spec.get('clean') else [])
+                                 + list(scen.get('argv', [])), script,
                                  random_choice=dp.choice_fn(spec['choices']) if spec['sched'] == 'random' else None)
-        ob.before = prev
+        # -c / --clean: the session starts from truncated files, whatever earlier sessions recorded
+        ob.before = [''] * len(probe.files) if spec.get('clean') else prev
+        ob.clean = bool(spec.get('clean'))
         prev = ob.files
         observed.append(ob)
         ck.impl_traces += 1
@@ -107,7 +122,7 @@ def compare_and_judge(ck, items):
     ops = []
     for (scen, probe, outputs, build_ok, observed) in items:
         specs = [{'sched': s['sched'], 'choices': s['choices'], 'stop': model_stop(s.get('stop'), ob),
-                  'order': [i for i in (ob.order or []) if i is not None]}
+                  'clean': bool(s.get('clean')), 'order': [i for i in (ob.order or []) if i is not None]}
                  for s, ob in zip(scen['specs'], observed)]
         ops.append(dp.scenario_op('c06.sessions', probe, outputs, build_ok, specs))
     answers = ck.model(ops)
@@ -130,6 +145,8 @@ def judge(ck, inp, probe, outputs, build_ok, observed, ans):
     multi = sum(1 for r in probe.runs if len(r['files']) > 1)
     ck.count('files:%d' % n_files)
     ck.count('sessions:%d' % len(observed))
+    if any(getattr(ob, 'clean', False) for ob in observed[1:]):
+        ck.count('history-with--c-after-recording')
     ck.count('runs-in-2+-files' if multi else 'runs-in-1-file')
     ck.count('builds:%d' % len(probe.builds))
     most = max([len(o) for per in outputs for o in per if o] or [0])
@@ -186,12 +203,13 @@ def expected_meas(probe, outputs, ob, fi):
         if o is None:
             continue
         for j, ms in enumerate(o):
-            for (crit, unit, v) in ms:
+            for (crit, unit, v) in dp.written_order(ms):
                 if run['profile']:
                     exp.append([str(s[2]), '1', '0.000000', '', 'total'] + run['cols'])
                 else:
-                    exp.append([str(s[2]), str(j + 1), fmt6_independent(v), unit, crit] + run['cols'])
-    return exp
+                    exp.append([str(s[2]), str(j + 1), value_text(v), unit, crit] + run['cols'])
+    # in the shape a reader sees: split at tabs (a configured text may itself contain one)
+    return ['\t'.join(e).split('\t') for e in exp]
 
 
 def flush_oracle(ck, inp, probe, outputs, ob, profile_files):
@@ -290,9 +308,13 @@ def oracle(ck, inp, probe, outputs, ob, profile_files):
                 runs_seen[int(i)] = json.loads(js)
             elif line and not line.startswith('#') and line != dp.HEADER:
                 cols = line.split('\t')
-                rid = int(cols[11] if fi in profile_files else cols[-1])
-                runcols = cols[2:11] if fi in profile_files else cols[5:14]
-                ks = probe.by_cols.get(tuple(runcols), [])
+                if fi in profile_files:
+                    rid = int(cols[-2])
+                    ks = probe.by_joined.get('\t'.join(cols[2:-2]), [])
+                else:
+                    rid = int(cols[-1])
+                    ks = probe.by_joined.get('\t'.join(cols[5:-1]), [])
+                runcols = probe.runs[ks[0]]['cols'] if len(ks) == 1 else []
                 problem = None
                 if rid not in runs_seen:
                     problem = 'no-run-record-before'
@@ -334,7 +356,7 @@ def dp_rows(text, profile):
             continue
         cols = line.split('\t')
         if profile:
-            rows.append([cols[0], '1', '0.000000' if cols[-1] == dp.PERF_JSON else cols[-1], '', 'total'] + cols[2:12])
+            rows.append([cols[0], '1', '0.000000' if cols[-1] == dp.PERF_JSON else cols[-1], '', 'total'] + cols[2:-1])
         else:
             rows.append(cols)
     return rows
@@ -545,8 +567,8 @@ def parallel_slice(ck, n):
                     if s[0] == 'r' and fi in probe.runs[s[1]]['files']:
                         for j, ms in enumerate(outputs[s[1]][s[2] - 1]):
                             for (crit, unit, v) in ms:
-                                want_rows.append([str(s[2]), str(j + 1), fmt6_independent(v), unit, crit]
-                                                 + probe.runs[s[1]]['cols'])
+                                want_rows.append('\t'.join([str(s[2]), str(j + 1), fmt6_independent(v), unit, crit]
+                                                           + probe.runs[s[1]]['cols']).split('\t'))
                 got_rows = [r[:-1] for r in dp_rows(new, False)]
                 if new and blocks != 1:
                     ck.oracle_fail('session_block_once', sinp, {'file': fname, 'blocks': blocks}, sig)
